@@ -1009,8 +1009,8 @@ pub mod random_policy {
             rp_frame(*old(self), *final(self)), // @ob C15 policy.flush.frame
             post_flush(old(self).store.memory@, old(self).store.timer.now(), header.time_to_live, final(self).store.memory@), // @ob C08,C05 policy.flush.post_flush
             // C15: "returns to its initial value whenever the store returns to empty"
-            header.time_to_live == 0 ==> usage(*final(self)) == 0, // @ob C15 policy.flush.now_resets_accounting
-            header.time_to_live != 0 ==> usage(*final(self)) == usage(*old(self)), // @ob C15 policy.flush.delayed_unchanged
+            header.time_to_live == 0 ==> usage(*final(self)) == 0, // @ob C15,C08 policy.flush.now_resets_accounting
+            header.time_to_live != 0 ==> usage(*final(self)) == usage(*old(self)), // @ob C15,C08 policy.flush.delayed_unchanged
 //@endfn
 
 //@fn memcache/random_policy.rs | impl Cache for RandomPolicy | len | ret=r | safety=C10
